@@ -562,3 +562,50 @@ Proof. intros c. destruct c; vm_compute; reflexivity. Qed.
 
 Theorem json_content_type_matches : json_ct = json_content_type_src.
 Proof. vm_compute. reflexivity. Qed.
+
+(* ---------- several requests on one connection ---------- *)
+Definition exchange_ok (x : areq * list bytes * bytes) : Prop :=
+  let '(a, parts, w) := x in
+  render_h1 a parts = Sent w /\
+  no_framing_keys (a_rhdr a) = true /\ no_framing_keys (a_chdr a) = true /\
+  (forall v, described a = Some v -> mem_byte " "%byte (v_target v) = false) /\
+  (forall q, to_creq a = Sent q -> h1_chunked q (eff_body a) = true ->
+     wf_chunked (map hex_chunk parts) (bs "0") [] [] /\ concat parts = eff_body a).
+
+Definition wire_of (x : areq * list bytes * bytes) : bytes := snd x.
+Definition req_of (x : areq * list bytes * bytes) : areq := fst (fst x).
+
+(* whatever requests share a connection, in whatever number: a reader takes them apart exactly
+   where the writer put the boundaries - no request's bytes are read as part of another one *)
+Theorem h1_sequence_roundtrip : forall xs rest, Forall exchange_ok xs ->
+  exists vs, Forall2 (fun x v => described (req_of x) = Some v) xs vs /\
+             observe_seq (length xs) (concat (map wire_of xs) ++ rest) = Some (vs, rest).
+Proof.
+  induction xs as [|[[a parts] w] xs IH]; intros rest H.
+  - exists []. split; [constructor|reflexivity].
+  - inversion H as [|? ? Hx Hxs]; subst. cbv [exchange_ok] in Hx. destruct Hx as (Hr & Hn1 & Hn2 & Hsp & Hch).
+    destruct (IH rest Hxs) as (vs & Hvs & Hobs).
+    destruct (h1_end_to_end a parts w (concat (map wire_of xs) ++ rest) Hr Hn1 Hn2 Hsp Hch) as (v & Hd & Ho).
+    exists (v :: vs). split; [constructor; [exact Hd|exact Hvs]|].
+    cbn [length map concat wire_of snd observe_seq]. rewrite <- app_assoc, Ho, Hobs. reflexivity.
+Qed.
+
+(* Expect: 100-continue: a connection that may be used again has received the whole request *)
+Theorem expect_reuse_needs_body : forall req_close ans head framed,
+  conn_reusable_after req_close ans = true ->
+  expect_sends_body req_close ans = true /\ exchange_wire head framed req_close ans = head ++ framed.
+Proof.
+  intros rc ans head framed H. unfold exchange_wire.
+  assert (E : expect_sends_body rc ans = true).
+  { destruct ans as [|[|]|]; cbn in *; try reflexivity; try discriminate.
+    apply negb_true_iff in H. rewrite H. reflexivity. }
+  rewrite E. split; reflexivity.
+Qed.
+
+(* ... and a body is withheld only on a connection that is not used again *)
+Theorem expect_body_withheld_only_when_closing : forall req_close ans,
+  expect_sends_body req_close ans = false -> conn_reusable_after req_close ans = false.
+Proof.
+  intros rc ans H. destruct (conn_reusable_after rc ans) eqn:E; [|reflexivity].
+  destruct (expect_reuse_needs_body rc ans [] [] E) as [E' _]. congruence.
+Qed.
